@@ -51,8 +51,8 @@ func runC06(c *Ctx) {
 
 func c06Lanes(c *Ctx, W int) {
 	r := c.R
-	inFn := c.P.Func("pkg/curl", "Curl.in")
-	outFn := c.P.Func("pkg/curl", "Curl.out")
+	inFn := c.helper("pkg/curl", "Curl.in")
+	outFn := c.helper("pkg/curl", "Curl.out")
 	if inFn == nil || outFn == nil {
 		r.Undec("C06.lane-noninterference.anchor", "", "Curl.in / Curl.out not found")
 		return
@@ -231,7 +231,14 @@ func c06Lanes(c *Ctx, W int) {
 
 func c06Sponge(c *Ctx) {
 	r := c.R
-	curlP := "(*repo/pkg/curl.Curl)."
+	curlMethod := c.helper("pkg/curl", "Curl.transform")
+	inName, outName := "<missing>", "<missing>"
+	if f := c.helper("pkg/curl", "Curl.in"); f != nil {
+		inName = f.String()
+	}
+	if f := c.helper("pkg/curl", "Curl.out"); f != nil {
+		outName = f.String()
+	}
 	for _, name := range []string{"Absorb", "Squeeze"} {
 		f := c.fn("pkg/curl", "Curl."+name)
 		if f == nil {
@@ -321,10 +328,10 @@ func c06Sponge(c *Ctx) {
 			var inCall, trCall ssa.CallInstruction
 			for _, ci := range ana.Calls(fn) {
 				t := b.CallTermAt(ci)
-				if matches("call<"+curlP+"in>(_, slice(load(iaddr(p1, bin<+>(ind<+1>(-1), 1))), ind<+243>(0), none), conv<uint>(bin<+>(ind<+1>(-1), 1)))", t) {
+				if matches("call<"+inName+">(_, slice(load(iaddr(p1, bin<+>(ind<+1>(-1), 1))), ind<+243>(0), none), conv<uint>(bin<+>(ind<+1>(-1), 1)))", t) {
 					inCall = ci
 				}
-				if ci.Common().StaticCallee() != nil && ci.Common().StaticCallee().Name() == "transform" {
+				if ci.Common().StaticCallee() != nil && ci.Common().StaticCallee() == curlMethod {
 					trCall = ci
 				}
 			}
@@ -348,10 +355,10 @@ func c06Sponge(c *Ctx) {
 			fresh := false
 			for _, ci := range ana.Calls(fn) {
 				t := b.CallTermAt(ci)
-				if ci.Common().StaticCallee() != nil && ci.Common().StaticCallee().Name() == "transform" {
+				if ci.Common().StaticCallee() != nil && ci.Common().StaticCallee() == curlMethod {
 					trCall = ci
 				}
-				if matches("call<"+curlP+"out>(_, slice(load(iaddr(_, bin<+>(ind<+1>(-1), 1))), ind<+243>(0), none), conv<uint>(bin<+>(ind<+1>(-1), 1)))", t) {
+				if matches("call<"+outName+">(_, slice(load(iaddr(_, bin<+>(ind<+1>(-1), 1))), ind<+243>(0), none), conv<uint>(bin<+>(ind<+1>(-1), 1)))", t) {
 					outCall = ci
 				}
 			}
